@@ -251,8 +251,16 @@ func (e *arithExec) Do(line string) string {
 		// the decoded value must be the one of the final parameters
 		history := kind != 1 && (raw^uint64(size))%2 == 1
 		signed0, scale0, off0 := signed, scale, off
+		variant := (raw >> 1) % 3
 		if history {
-			signed0, scale0, off0 = !signed, scale*2+1, off+3
+			switch variant {
+			case 0: // only the signedness changes afterwards
+				signed0 = !signed
+			case 1: // only scale and offset change afterwards
+				scale0, off0 = scale*2+1, off+3
+			default:
+				signed0, scale0, off0 = !signed, scale*2+1, off+3
+			}
 		}
 		switch kind {
 		case 0:
@@ -292,9 +300,16 @@ func (e *arithExec) Do(line string) string {
 			}
 			msg2.SignalLayout().Decode(data)
 			msg.SignalLayout().Decode(data)
-			typ.UpdateSigned(signed)
-			typ.SetScale(scale)
-			typ.SetOffset(off)
+			// each update is followed by a decode, so that no later update hides an earlier one
+			if variant != 0 {
+				typ.SetScale(scale)
+				msg2.SignalLayout().Decode(data)
+				typ.SetOffset(off)
+				msg2.SignalLayout().Decode(data)
+			}
+			if variant != 1 {
+				typ.UpdateSigned(signed)
+			}
 		}
 		decs := msg.SignalLayout().Decode(data)
 		if len(decs) != 1 {
